@@ -189,6 +189,11 @@ class Prog:
     def set_sul(self, fid, field, v):
         self.steps.append({'op': 'set_sul', 'fid': fid, 'field': field, 'v': v})
 
+    def mutate_array(self, aid, new):
+        """The caller overwrites array `aid` in place (same dtype and shape) with `new`."""
+        new = np.ascontiguousarray(np.asarray(new, dtype=np.dtype(self.arrays[aid]['dtype'])))
+        self.steps.append({'op': 'mutate_array', 'aid': aid, 'hex': new.tobytes().hex()})
+
     def set_header(self, lf, field, v):
         self.steps.append({'op': 'set_header', 'lf': lf, 'field': field, 'v': v})
 
